@@ -9,6 +9,7 @@
     P <id> <prefer> <incs> <excs> <ranges>
     U <id> <b> <e> <clear> <own> | <vb> <ve> <segs> <fb> <fe> <ownret>
     Q <id> <t,t,...> | <bits>
+    G <id> <now> | <bits>                  (is_inside attribute at the virtual present, read twice: replayed as Q <id> now,now)
     K <b> <e> <ranges> | <segs>
     A <id> <now> <own> | <vb> <ve> <segs> <fb> <fe> <ownret>           (real Start: replayed as U <id> now now+86400 1)
     T <now> <owns> | <fired> <order> {<id> <active> <vb> <ve> <segs> <fb> <fe> <ownret>}*
@@ -63,6 +64,7 @@ structure DSt where
   strideDst : Nat := 0       -- calendar evaluations in which a stride > 1 is counted across a UTC-offset change
   noops : Nat := 0
   starts : Nat := 0          -- real TimePeriod::Start calls
+  gets : Nat := 0            -- reads of the is_inside attribute at the virtual present (GetIsInside + reflected field)
   ticks : Nat := 0           -- runs of the real UpdateTimerHandler
   ticksNotFired : Nat := 0
   tickUpdates : Nat := 0     -- (period, timer run) pairs replayed
@@ -159,6 +161,12 @@ def handle (d : DSt) (n : Nat) (line : String) : IO DSt := do
       | some t => ("U" :: id :: now :: toString (t + 86400) :: "1" :: own :: rest, true)
       | none => (ws, false)
     | _ => (ws, false)
+  -- `G id now | bits`: the `is_inside` attribute read at the (virtual) present, directly and through reflection:
+  -- both are `IsInside(now)` as far as the property is concerned
+  let (ws, d) : List String × DSt := match ws with
+    | ["G", id, now, "|", bits] =>
+      if bits.length == 2 then (["Q", id, now ++ "," ++ now, "|", bits], { d with gets := d.gets + 1 }) else (ws, d)
+    | _ => (ws, d)
   match ws with
   | [] => return d
   | "X" :: _ => return d
@@ -247,6 +255,12 @@ def handle (d : DSt) (n : Nat) (line : String) : IO DSt := do
           IO.println s!"SPECFAIL line={n} case={d.caseNo} clause={c.name} t=- impl=- expected=- corr_ok={showBool !d.caseMismatch}"
           d := { d with specfails := d.specfails + 1 }
         | none => pure ()
+        -- the own ranges must have been computed for (at least) the region that was refreshed
+        match specAsk o (match ifb, ife with | some fb, some fe => some (fb, fe) | _, _ => none) with
+        | some c =>
+          IO.println s!"SPECFAIL line={n} case={d.caseNo} clause={c.name} t=- impl=- expected=- corr_ok={showBool !d.caseMismatch}"
+          d := { d with specfails := d.specfails + 1 }
+        | none => pure ()
         -- calendar specification on the segments the real ScriptFunc returned
         match p.ranges, ownRet?, ifb, ife with
         | some rg, some o, some fb, some fe =>
@@ -286,6 +300,7 @@ def handle (d : DSt) (n : Nat) (line : String) : IO DSt := do
         if bs.length != ts.length then IO.println s!"BADLINE line={n}"; return d
         let mut d := d
         let mut reported := false
+        let mut reportedSpec := false
         let mut reportedRefs := false
         for (t, r) in ts.zip bs do
           d := { d with queries := d.queries + 1 }
@@ -295,6 +310,14 @@ def handle (d : DSt) (n : Nat) (line : String) : IO DSt := do
               IO.println s!"MISMATCH line={n} case={d.caseNo} what=is-inside t={t} impl={showBool r} model={showBool mr}"
               reported := true
             d := { d with mismatches := d.mismatches + 1, caseMismatch := true }
+          -- a period that has never been updated has no computed window: the documented default applies
+          if p.last.isNone && p.lastTick.isNone && p.impl.vb.isNone && p.impl.ve.isNone then
+            d := { d with outsideWindow := d.outsideWindow + 1 }
+            if !r then
+              if !reportedSpec then
+                IO.println s!"SPECFAIL line={n} case={d.caseNo} clause={Clause.outsideWindow.name} t={t} impl={showBool r} expected=1 corr_ok={showBool !d.caseMismatch}"
+                reportedSpec := true
+              d := { d with specfails := d.specfails + 1 }
           match p.lastTick with
           | none => pure ()
           | some k =>
@@ -306,9 +329,9 @@ def handle (d : DSt) (n : Nat) (line : String) : IO DSt := do
             match specTick { k with upd := { k.upd with queries := [(t, r)] } } with
             | none => pure ()
             | some c =>
-              if !reported then
+              if !reportedSpec then
                 IO.println s!"SPECFAIL line={n} case={d.caseNo} clause={c.name} t={t} impl={showBool r} expected={showBool (expectTick k t)} corr_ok={showBool !d.caseMismatch}"
-                reported := true
+                reportedSpec := true
               d := { d with specfails := d.specfails + 1 }
           -- agreement with the referenced periods' own current answers (production shape: calendar periods only)
           let oo : Option UpdObs := match p.lastTick with | some k => some k.upd | none => p.last
@@ -343,9 +366,9 @@ def handle (d : DSt) (n : Nat) (line : String) : IO DSt := do
             | none => pure ()
             | some c =>
               let ex := expectInside o t
-              if !reported then
+              if !reportedSpec then
                 IO.println s!"SPECFAIL line={n} case={d.caseNo} clause={c.name} t={t} impl={showBool r} expected={showBool ex} corr_ok={showBool !d.caseMismatch}"
-                reported := true
+                reportedSpec := true
               d := { d with specfails := d.specfails + 1 }
         return d
     | _, _ => IO.println s!"BADLINE line={n}"; return d
@@ -439,6 +462,11 @@ def handle (d : DSt) (n : Nat) (line : String) : IO DSt := do
               IO.println s!"SPECFAIL line={n} case={d.caseNo} clause={cl.name} t=- impl=- expected=- corr_ok={showBool !d.caseMismatch}"
               d := { d with specfails := d.specfails + 1 }
             | none => pure ()
+            match specAsk k.upd (match ifb, ife with | some fb, some fe => some (fb, fe) | _, _ => none) with
+            | some cl =>
+              IO.println s!"SPECFAIL line={n} case={d.caseNo} clause={cl.name} t=- impl=- expected=- corr_ok={showBool !d.caseMismatch}"
+              d := { d with specfails := d.specfails + 1 }
+            | none => pure ()
             match p.ranges, ownRet?, ifb, ife with
             | some rg, some o, some fb, some fe =>
               d := { d with calSegs := d.calSegs + o.length }
@@ -489,4 +517,4 @@ def main : IO Unit := do
   let d ← foldLines stdin handle ({} : DSt)
   let d := closeCase d
   let forms := " ".intercalate (d.dayForms.map fun p => s!"form_{p.1}={p.2}")
-  IO.println s!"STATS cases={d.caseNo} updates={d.updates} queries={d.queries} scripts={d.scripts} cal_segments={d.calSegs} cal_checked={d.calChecked} tz_assumptions_checked={d.tzChecked} stride_across_offset_change={d.strideDst} noops={d.noops} starts={d.starts} timer_runs={d.ticks} timer_not_fired={d.ticksNotFired} timer_period_updates={d.tickUpdates} timer_noops={d.tickNoops} timer_purged={d.tickPurged} timer_stale_reference={d.tickStale} refs_checked={d.refsChecked} refs_stale_disagreements={d.refsStale} non_clearing={d.nonClear} with_includes={d.withInc} with_excludes={d.withExc} cuts={d.splitN} shared_boundary_updates={d.sharedBoundary} inside_yes={d.insideYes} inside_no={d.insideNo} outside_window={d.outsideWindow} nontrivial={d.nontrivial} repr_differs={d.reprDiffers} args_differ={d.argsDiffer} mismatches={d.mismatches} specfails={d.specfails} {forms}"
+  IO.println s!"STATS cases={d.caseNo} updates={d.updates} queries={d.queries} scripts={d.scripts} cal_segments={d.calSegs} cal_checked={d.calChecked} tz_assumptions_checked={d.tzChecked} stride_across_offset_change={d.strideDst} noops={d.noops} starts={d.starts} attribute_reads={d.gets} timer_runs={d.ticks} timer_not_fired={d.ticksNotFired} timer_period_updates={d.tickUpdates} timer_noops={d.tickNoops} timer_purged={d.tickPurged} timer_stale_reference={d.tickStale} refs_checked={d.refsChecked} refs_stale_disagreements={d.refsStale} non_clearing={d.nonClear} with_includes={d.withInc} with_excludes={d.withExc} cuts={d.splitN} shared_boundary_updates={d.sharedBoundary} inside_yes={d.insideYes} inside_no={d.insideNo} outside_window={d.outsideWindow} nontrivial={d.nontrivial} repr_differs={d.reprDiffers} args_differ={d.argsDiffer} mismatches={d.mismatches} specfails={d.specfails} {forms}"
